@@ -9,6 +9,8 @@ between the directions), which calls are issued when, where reads are cut and wh
   production every process has its own copy, so the harness swaps a per-"process" dict in (by mangled name) whenever it runs code
   of that process, and starts every run with fresh ones.  State shared *inside* one process (a Node with two peers, a server with
   two clients) stays shared, as it is in production.
+* every process has a root component whose channel is drawn from '*' (most runs), 'app', 'svc': the manager fires `exception` events
+  (and everything else fired without channels) on the root's channel, so error results must not depend on it.
 * application idiom: `r = yield self.call(remote(event, name, channel=...), *channels)` in a generator handler (the waiting
   handler) or `v = self.fire(remote(...))` and reading `v.value` later; server -> client calls return `node.server.send(event, sock)`
   from a handler, or forward the event they are handling (`job`: the auto_remote_event idiom, done with the server API).  Fire-and-forget
@@ -94,12 +96,15 @@ ASSUMPTIONS = ['the `success` flag of a received event is forced to True by Prot
                'fire-and-forget events are sent from the server side only (Server.send(no_result=True) / send_to / send_all are the only public no-result API)',
                'when the raw peer answers one call twice (duplicate answer, or a value packet of its own with that id) the value the waiting handler obtains is not judged; '
                'free (non-dispatcher) meta keys of a result packet may or may not be copied to the waiting event',
+               'the root component of a process is an empty Component with the drawn channel; every workload event is fired with explicit channels, so no idiom '
+               'had to be excluded under a non-\'*\' root (all of them pass on the healthy tree)',
                'server -> client calls always carry explicit channels (an empty channel tuple is replaced by the receiver, which the statement does not cover)']
 PROBES = ['call:c2s', 'call:s2c', 'call:concurrent', 'call:big', 'completed', 'fault:short_read', 'cut:in-delimiter', 'cut:tiny', 'cut:uniform',
           'cut:in-multibyte', 'packet:split', 'fw:send-blocked', 'fw:recv-blocked', 'topo:B1', 'topo:B2', 'topo:BC', 'hostile:valid', 'hostile:mutated',
           'hostile:bytes', 'hostile:meta', 'hostile:value', 'hostile:oversized', 'fault:peer_abort', 'hostile:probe-call', 'behav:raise', 'behav:gen',
           'mode:fire', 'mode:call', 'mode:fwd', 'junk-dispatch', 'note:send', 'note:send_to', 'note:send_all', 'no-result-event-in-flight-with-call',
-          'root:*', 'root:app', 'root:svc', 'non-star-root-with-raising-handler', 'behav:gen-raise', 'callee:plain', 'callee:meta', 'callee:error', 'callee:wrong-id', 'callee:duplicate', 'callee:pieces', 'hostile-result-meta', 'call:to-raw-peer']
+          'root:*', 'root:app', 'root:svc', 'non-star-root-with-raising-handler', 'behav:gen-raise',
+          'callee:plain', 'callee:meta', 'callee:error', 'callee:wrong-id', 'callee:duplicate', 'callee:pieces', 'hostile-result-meta', 'call:to-raw-peer']
 TIERS = {
     'quick': dict(runs=24000, wall=30, chunk=50, cfg=dict(max_calls=6, max_ops=26, big=[3000, 4096, 5000, 9000], max_hostile=5, junk=[5000, 20000])),
     'thorough': dict(runs=400000, wall=600, chunk=200, cfg=dict(max_calls=12, max_ops=60, big=[3000, 4090, 4096, 5000, 9000, 20000, 70000],
